@@ -16,7 +16,7 @@ META = {
     "explanation": "The usage search keeps a hit only if a token at the offset has text == def.name() and classify_node(parent) == def; "
                    "go-to-definition is classify_node at the cursor. The two views can only be inverse if they share one classifier, "
                    "look at the same node kinds, and the name is the text of one identifier token. These necessary conditions are "
-                   "decided on the MIR for all programs; completeness of the search scope is behavioural and not decided.",
+                   "decided on the MIR for all programs; completeness of the search scope is behavioural and not decided. R12 = C14 U12 (engine U: the search range ends at the byte length). R4 also: a deduplication by key function keeps the file. R13 = C07 N19.",
     "not_decided": "completeness of the search scope; that classify_node is correct for every syntactic position.",
     "trusted_base": ["rustc MIR + callee resolution", "rowan: SyntaxToken::text is the token's exact text"],
     "assumptions": [],
